@@ -32,3 +32,11 @@ Lemma C17_refute_finish_without_drain :
   r1 = Pending /\ r2 = Ready (Ok tt) /\ qs_finished (s_q s3) = true /\
   qs_log (s_q s3) = [0; 4; 1] /\ qs_log (s_q s3) <> spec_handed [EvAccepted [[0; 4]; [1; 2; 3; 4]]].
 Proof. vm_compute. repeat split. discriminate. Qed.
+
+(* poll_data converting the read error (`?`) before the stream is put back: after a failed read the next
+   poll_data polls a completed future (panic 52).  Replay: `qr ... fault=reset:C@N re=1`. *)
+Lemma C17_refute_stream_lost_after_failed_read :
+  exists r, recv_new (qrecv_new 3) = Ok r /\
+    let lost := {| r_id := r_id r; r_stream := None; r_fut := FutDone; r_pending_stop := None |} in
+    fst (fst (poll_data [RFin] lost)) = Ready (Panic 52) /\ underlying lost = None.
+Proof. eexists. split; [vm_compute; reflexivity|]. split; vm_compute; reflexivity. Qed.
